@@ -193,9 +193,13 @@ def _coroutine_handed_on(ctx: Ctx, rule: str, f: FuncInfo, head: Node):
         t = s.callee.targets[0]
         arg = ctx.call_arg(call, t, t.param_names()[1] if t.param_names()[0] in ("self",) else t.param_names()[0])
         ok = None
-        if isinstance(arg, ast.Name) and arg.id in sc.defs:
-            vals = [h[1] for h in sc.defs[arg.id] if h[0] == "assign"]
-            ok = bool(vals) and all(isinstance(v, ast.Call) and (sc.callee(v).kind == "user" or any(t.name == "star_function" for t in sc.callee(v).targets)) for v in vals)
+        if isinstance(arg, ast.Name):
+            # every value the argument may stand for (through helper parameters and the returns of spliced helpers; a marker
+            # object a helper returns instead of a coroutine is a value too, and not one to start)
+            vals = [(fr_, v) for fr_, _e, v in ctx.vals.leaves_at(s, arg)]
+            if not (len(vals) == 1 and vals[0][1] is arg):
+                ok = bool(vals) and all(isinstance(v, ast.Call) and (ctx.an.scope(fr_).callee(v).kind == "user" or any(t.name == "star_function" for t in ctx.an.scope(fr_).callee(v).targets))
+                                        for fr_, v in vals)
         rep.ob(rule, "the coroutine handed to _start_task is the one created by this iteration's call", ok, node=s)
         g = expr_role(ctx, f, ctx.call_arg(call, t, "group_name"))
         rep.ob(rule, "the task is started in the spawner's own group", g == "GROUP", node=s, detail=f"group_name role {g}")
